@@ -139,14 +139,16 @@ def run_tlc(work: Path, module: str, cfg: str, *, workers: int = 1, args: Sequen
             bad = (bad or '') + f' [{marker.strip()}]'
     if bad:
         r.error = bad
-        tail = '\n'.join(out.splitlines()[-40:])
+        lines = out.splitlines()
+        first = next((i for i, l in enumerate(lines) if l.startswith('Error:') or 'Semantic errors' in l or 'exception' in l.lower()), max(0, len(lines) - 30))
+        tail = '\n'.join(lines[max(0, first - 2):first + 25])
         raise MachineryFailure(f'TLC failed on {module}: {bad}\n{tail}')
     return r
 
 
 def judge_batch(work: Path, module: str, cases: List[dict], *, cfg: str = None, shards: int = None,
                 per_shard_min: int = 50, timeout: int = 3600, heap: str = '3g',
-                cases_name: str = 'cases.json', consts: str = '') -> Tuple[Dict[int, dict], int, int, float]:
+                cases_name: str = 'cases.json', consts: str = '', shared: Dict[str, Any] = None) -> Tuple[Dict[int, dict], int, int, float]:
     """Batch judge: every case gets a `tid` (1-based, global); the TLA+ module `module` reads
     cases.json, has Init == tid \\in 1..Len(Cases), and prints one ToJson verdict record
     [tid |-> .., v |-> "ok" | clause, ...] per case.  Sharded over parallel TLC processes.
@@ -170,6 +172,8 @@ def judge_batch(work: Path, module: str, cases: List[dict], *, cfg: str = None, 
         w = work / f'shard{k}'
         prepare_workdir(w)
         (w / cases_name).write_text(json.dumps(chunks[k]))
+        for name, obj in (shared or {}).items():
+            (w / name).write_text(obj if isinstance(obj, str) else json.dumps(obj))
         return run_tlc(w, module, cfg, workers=1, timeout=timeout, heap=heap)
 
     with ThreadPoolExecutor(max_workers=shards) as ex:
